@@ -555,8 +555,9 @@ Plan gen_base(const std::string &profile, uint64_t seed, const JV &opts) {
 		for (int i = 0; i < 12; i++) g.paths.push_back("fat/" + std::to_string(i));
 		g.p_fat = 0.7; g.w["add"] = 7; g.w["change"] = 4; g.w["remove"] = 1; g.w["get"] = 2; g.w["fetch"] = 1.5; g.w["set"] = 1; g.w["call"] = 0.5;
 		nops = 12 + (int)r.below(50);
-		h.set("shadow", JV::boolean(true)); h.set("relabel_after_fault", JV::str("C15")); h.set("ledgerprop", JV::str("C15")); h.set("memprop", JV::str("C15")); h.set("baseprop", JV::str("C15")); h.put("canary_prop", JV::str("C15"));
-		h.set("shadowprop", JV::str(opts.gets("shadowprop", "C15")));
+		std::string ap = opts.gets("afprop", "C15");
+		h.set("shadow", JV::boolean(true)); h.set("relabel_after_fault", JV::str(ap)); h.set("ledgerprop", JV::str(ap)); h.set("memprop", JV::str(ap)); h.set("baseprop", JV::str(ap)); h.put("canary_prop", JV::str(ap));
+		h.set("shadowprop", JV::str(opts.gets("shadowprop", ap)));
 	}
 	if (profile == "c16") h.set("notify_prop", JV::str("C16"));
 	if (profile == "c08") h.set("notify_prop", JV::str("C08"));
@@ -571,6 +572,7 @@ Plan gen_base(const std::string &profile, uint64_t seed, const JV &opts) {
 	}
 	// a connection that was reset by its client refuses further writes (EPIPE) until the daemon has noticed the hang-up
 	if ((profile == "c03" || profile == "c05" || profile == "base" || profile == "c14") && r.chance(0.5)) h.set("epipe", JV::boolean(true));
+	if ((profile == "c03" || profile == "c14") && r.chance(0.25)) h.set("route_may_fail", JV::boolean(true));
 	bool inject_res = h.getb("route_may_fail");
 	std::set<int> faulty_cs;
 	if (profile == "c11x") {
@@ -650,6 +652,7 @@ Plan gen_base(const std::string &profile, uint64_t seed, const JV &opts) {
 			o.dt = g.pick_dt(); o.hold = false;
 			g.p.ops.push_back(o);
 		}
+		else if ((profile == "c05" || profile == "c07") && x < 0.245) { Op o = g.mk("closeeintr"); o.a.set("n", JV::num((double)(1 + r.below(3)))); g.p.ops.push_back(o); }
 		else if (inject_res && x < 0.27) { Op o = g.mk(r.chance(0.6) ? "timerfail" : "epolladdfail"); static const int errs[] = {24, 23, 12, 28}; o.a.set("errno", JV::num(errs[r.below(4)])); g.p.ops.push_back(o); }
 		else if (profile == "c11x" && x < 0.6 && !faulty_cs.empty()) {
 			// an impaired peer works on elements that its own fetch-all matches
@@ -873,7 +876,7 @@ Plan gen_hostile(const std::string &profile, uint64_t seed, const JV &opts) {
 		GClient &gc = g.cl[ci];
 		if (!gc.alive) continue;
 		double x = r.unit();
-		if (x < 0.05) { Op o = g.mk("close", gc.c); o.a.set("how", JV::str(r.chance(0.6) ? "fin" : r.chance(0.5) ? "hup" : "rst")); o.dt = g.pick_dt(); if (r.chance(0.4)) o.a.set("epipe_after", JV::num((double)r.below(3))); g.p.ops.push_back(o); gc.alive = false; continue; }
+		if (x < 0.05) { if (r.chance(0.2)) { Op ce = g.mk("closeeintr"); ce.a.set("n", JV::num(1)); g.p.ops.push_back(ce); } Op o = g.mk("close", gc.c); o.a.set("how", JV::str(r.chance(0.6) ? "fin" : r.chance(0.5) ? "hup" : "rst")); o.dt = g.pick_dt(); if (r.chance(0.4)) o.a.set("epipe_after", JV::num((double)r.below(3))); g.p.ops.push_back(o); gc.alive = false; continue; }
 		if (x < 0.09 && kind[ci] != 1 && (kind[ci] == 0 ? gc.tr == "ws" : upgraded[ci])) {
 			// several pings (or requests) and the end of the connection arrive together; the peer is gone, so the kernel refuses the daemon's writes after the first few
 			std::string b; int n = 2 + (int)r.below(3);
@@ -1489,7 +1492,11 @@ Plan derive_b(const Plan &a) {
 			(void)early;
 			add_seg(o, r);
 			o.hold = false;
+			// the bytes of a connection's last message and its FIN may be reported by one readiness event
+			bool with_fin = i + 1 < a.ops.size() && a.ops[i + 1].k == "close" && a.ops[i + 1].c == o.c && a.ops[i + 1].dt == 0 && a.ops[i + 1].a.gets("how", "fin") == "fin" && r.chance(0.6);
+			if (with_fin) { o.hold = true; o.a.put("seg", JV()); o.a.put("gap", JV::num(0)); }
 			b.ops.push_back(o);
+			if (with_fin) continue;
 			if (r.chance(0.15)) { Op rc; rc.k = "rdcap"; rc.c = o.c; rc.uid = 2 * uidmax + o.uid; rc.a.set("n", JV::num((double)r.below(40))); rc.hold = false; b.ops.push_back(rc); }   // never hold across virtual time: a late daemon may legitimately see a reply and an expiry together
 			continue;
 		}
@@ -1613,8 +1620,9 @@ Plan generate_plan(const std::string &profile_in, uint64_t seed, const JV &opts)
 		uint64_t span = 60 + 25 * (uint64_t)p.ops.size();
 		JV rel = JV::arr(); for (int i = 0; i < nf; i++) rel.push(JV::num((double)(1 + r.below(span))));
 		p.hdr.put("allocfail_rel", rel); p.hdr.put("shadow", JV::boolean(true));
-		p.hdr.put("relabel_after_fault", JV::str("C15")); p.hdr.put("ledgerprop", JV::str("C15")); p.hdr.put("memprop", JV::str("C15")); p.hdr.put("baseprop", JV::str("C15")); p.hdr.put("canary_prop", JV::str("C15"));
-		p.hdr.put("shadowprop", JV::str(opts.gets("shadowprop", "C15")));
+		std::string ap = opts.gets("afprop", "C15");   // the property whose check runs this plan owns what goes wrong after the failure
+		p.hdr.put("relabel_after_fault", JV::str(ap)); p.hdr.put("ledgerprop", JV::str(ap)); p.hdr.put("memprop", JV::str(ap)); p.hdr.put("baseprop", JV::str(ap)); p.hdr.put("canary_prop", JV::str(ap));
+		p.hdr.put("shadowprop", JV::str(opts.gets("shadowprop", ap)));
 		p.profile = profile_in;
 	}
 	// a sanitizer report or crash is attributed to the property whose check is running, unless the profile says otherwise
